@@ -14,7 +14,7 @@ import types
 
 from .. import io_c17 as io17
 from .. import observe, probes
-from ..core import VERIF_DIR, subseed
+from ..core import VERIF_DIR, fp64 as core_fp, subseed
 
 ID = "C17"
 TITLE = "writers lose nothing (close / split / rotation)"
@@ -22,7 +22,12 @@ LEVEL = "fault_enumeration"
 RULE = (
     "(a) close histories, enumerated completely: (write|flush){0..3} followed by one of close | with-exit | close.close | "
     "with-exit.close | close.with-exit (75 histories) for each of 11 adapters (stream plain/.gz/.bz2/.lz4/.zst, jsonfile, "
-    "avro, sqlite, csvfile, line, text); thorough adds random histories of up to 12 operations.  (b) split: every N in "
+    "avro, sqlite, csvfile, line, text); thorough adds random histories of up to 12 operations.  Added to (a): stream histories "
+    "whose records include grouped records with one group name and one flat field list but different member types, between "
+    "plain records; 2-4 stream writers of one codec (plain/gz/bz2/lz4/zst/zstd, or mixed) open at the same time with "
+    "interleaved writes and either close order; Avro histories over {accepted, out-of-range integer at the third field, "
+    "lone-surrogate text at the fourth field} of length 1-4 (thorough 5) where the producer catches the refusal and carries on "
+    "(conservation over the accepted records).  (b) split (stream targets also with the grouped records above): every N in "
     "0..3*limit+1 x limit {1,2,3,7} x suffix length {1,2,3} x target {stream, .gz, json, avro, no extension, URI forms} x "
     "{with-exit, close}, plus splits into more parts than 10**suffix-length (11..24 parts with suffix length 1; thorough > 100 with "
     "suffix length 2); an audit hook on 'open' checks that no path is opened for writing twice; a slice of the grid is written with RELATIVE "
@@ -51,6 +56,9 @@ ASSUMPTIONS = [
     "(UTC timestamps, single-precision-exact floats, 16-bit integers, bytes, text) every tested format gives back exactly; value "
     "fidelity per type is the subject of C01/C14/C18/C19/C20, not of this check",
     "Avro output holds a single record type, SQLite / CSV output the two flat types; for SQLite the order is checked per table",
+    "an Avro record with an out-of-range integer or unencodable text may be refused or accepted; if it is accepted only its identity "
+    "(tag, seq) is compared (its value is C19's subject); a mappable record must never be refused",
+    "grouped records are written to the binary stream formats only (close histories, several open writers, split, stdout)",
     "an exception raised by flush()/close()/with-exit is recorded as an event; the verdict is taken from what is on disk against "
     "what was handed to write() (a write() that raises therefore counts as a lost record)",
     "rotated files are recognised by directory and by containing the stem (text before the first dot) of the template name",
@@ -77,6 +85,8 @@ ANCHORS = [
     "flow.record.stream:PathTemplateWriter.record_stream_for_path",
 ]
 
+STREAM_KINDS = ["stream", "stream.gz", "stream.bz2", "stream.lz4", "stream.zst", "stream.zstd"]
+GROUPED_SEQS = ["gGx", "Ggx", "gxG", "xgGg"]
 ADAPTERS_A = ["stream", "stream.gz", "stream.bz2", "stream.lz4", "stream.zst", "jsonfile", "avro", "sqlite", "csvfile", "line", "text"]
 ENDINGS = ["c", "x", "cc", "xc", "cx"]  # c = close(), x = leaving the with-block
 
@@ -100,9 +110,9 @@ SUFFIX_LENGTHS = [1, 2, 3]
 
 # writers opened on the process's standard output (run in a worker subprocess): name -> (writer URI, adapter kind, shapes)
 STDOUT_TARGETS = {
-    "dash": ("-", "stream", "xyz"),
-    "empty": ("", "stream", "xyz"),
-    "stream-uri": ("stream://", "stream", "xyz"),
+    "dash": ("-", "stream", "xyzgG"),
+    "empty": ("", "stream", "xyzgG"),
+    "stream-uri": ("stream://", "stream", "xyzgG"),
     "jsonfile": ("jsonfile://", "jsonfile", "xyz"),
     "avro": ("avro://", "avro", "x"),
     "avro-dash": ("avro://-", "avro", "x"),
@@ -146,7 +156,7 @@ ROT_TEMPLATES = {
     "host": ("{record.host}/{name}-{ts:%Y%m%dT%H}", "host"),
     "n": ("by-n/{name}-n{record.n}-{ts:%H}", "n"),
 }
-ROT_EXTS = [".records.gz", ".records", ".json"]
+ROT_EXTS = [".records.gz", ".records", ".json", ".records.zst", ".records.lz4", ".records.bz2"]
 ROT_PATTERNS = ["ababa", "abab", "aabba", "abcabc", "abcba", "aba", "ab", "aaab", "abacabac"]
 ROT_SENTINELS = ["none", "first", "all", "obstacles"]
 
@@ -208,6 +218,34 @@ def generate(ctx):
             if ctx.mine(idx):
                 yield {"k": "hist", "ad": kind, "h": h, "s": subseed("c17", ctx.seed, "a", kind, h)}
             idx += 1
+    # (a1) grouped records with one group name / one flat field list but different member types, between plain records
+    for kind in STREAM_KINDS:
+        for h in ("wwwc", "wwwx", "wfwwx", "wwfwc", "wwwwcc"):
+            for sq in GROUPED_SEQS:
+                if ctx.mine(idx):
+                    yield {"k": "hist", "ad": kind, "h": h, "sq": sq, "s": subseed("c17", ctx.seed, "ag", kind, h, sq)}
+                idx += 1
+    # (a2) several writers of one codec open at the same time, interleaved writes, closed in either order
+    for kind in STREAM_KINDS + ["mixed"]:
+        for nwr in (2, 3):
+            for order in ("fwd", "rev"):
+                for inter in ("rr", "rand"):
+                    if ctx.mine(idx):
+                        yield {"k": "overlap", "ad": kind, "nw": nwr, "order": order, "inter": inter,
+                               "s": subseed("c17", ctx.seed, "ao", kind, nwr, order, inter)}
+                    idx += 1
+    # (a3) Avro: records the encoder refuses in the middle of a history, the producer carries on
+    for n in range(1, 5 if ctx.quick else 6):
+        for seq in itertools.product("vbs", repeat=n):
+            seq = "".join(seq)
+            if "b" not in seq and "s" not in seq:
+                continue
+            if n >= 4 and ctx.quick and core_fp(seq) % 3:
+                continue
+            for end in ("c", "x", "fc"):
+                if ctx.mine(idx):
+                    yield {"k": "avrefuse", "seq": seq, "end": end, "flush": core_fp(seq, end) % 3, "s": subseed("c17", ctx.seed, "av", seq, end)}
+                idx += 1
     # (b) split: complete enumeration of the stated grid
     targets = SPLIT_QUICK if ctx.quick else list(SPLIT_TARGETS)
     for tg in targets:
@@ -243,6 +281,15 @@ def generate(ctx):
                             yield {"k": "rot", "w": wk, "t": tname, "ext": ext, "pat": pat, "sent": sent, "phases": phases,
                                    "s": subseed("c17", ctx.seed, "c", wk, tname, ext, pat, sent)}
                         idx += 1
+    # (b3) grouped records in split parts
+    for tg in ("stream", "gz", "noext", "uri-stream"):
+        for limit in (1, 2, 3):
+            for n in (4, 5, 7):
+                for qi, sq in enumerate(GROUPED_SEQS[:2]):
+                    if ctx.mine(idx):
+                        yield {"k": "split", "tg": tg, "limit": limit, "sl": 2, "n": n, "end": "xc"[(n + qi + limit) % 2], "sq": sq,
+                               "s": subseed("c17", ctx.seed, "bg", tg, limit, n, sq)}
+                    idx += 1
     # (b'') split targets with relative names, written by a worker process whose cwd is the case directory
     grid = SPLIT_REL_GRID[:4] if ctx.quick else SPLIT_REL_GRID + [(2, 2, 0), (1, 1, 12)]
     for form in SPLIT_REL_FORMS:
@@ -332,8 +379,13 @@ def exec_history(ctx, case):
     d = case_dir(ctx)
     path = os.path.join(d, "out" + spec["ext"])
     nw = hist.count("w")
-    records = io17.make_records(case["s"], nw, spec["shapes"] if fam != "avro" else "x")
+    shapes = spec["shapes"] + ("gG" if fam == "stream" else "")
+    records = io17.make_records(case["s"], nw, shapes if fam != "avro" else "x", shape_seq=case.get("sq"))
     expected = io17.observe_all(records)
+    if any(o[0] == "grouped" for o in expected):
+        ctx.event("a_histories_with_grouped_records")
+        if len({tuple(m[1] for m in o[2]) for o in expected if o[0] == "grouped"}) > 1:
+            ctx.event("a_histories_with_both_group_kinds")
     errors = []
     ctx.ev()
     try:
@@ -348,7 +400,7 @@ def exec_history(ctx, case):
     del w
     if io17.observe_all(records) != expected:
         ctx.violation(None, "%s: writing mutated a record" % kind, detail={"history": hist})
-    ctx.nontrivial("hist", kind, hist)
+    ctx.nontrivial("hist", kind, hist, case.get("sq"))
     ctx.cell("hist", kind, hist[-2:] if hist[-2:] in ("cc", "xc", "cx") else hist[-1:])
     ctx.event("a_cases")
     ctx.event("a_records_written", nw)
@@ -411,8 +463,11 @@ def exec_split(ctx, case):
     limit, sl, n, end = case["limit"], case["sl"], case["n"], case["end"]
     d = case_dir(ctx)
     base = os.path.join(d, fname)
-    records = io17.make_records(case["s"], n, spec["shapes"] if fam != "avro" else "x")
+    shapes = spec["shapes"] + ("gG" if fam == "stream" else "")
+    records = io17.make_records(case["s"], n, shapes if fam != "avro" else "x", shape_seq=case.get("sq"))
     expected = io17.observe_all(records)
+    if len({tuple(m[1] for m in o[2]) for o in expected if o[0] == "grouped"}) > 1:
+        ctx.event("b_cases_with_both_group_kinds")
     errors = []
     ctx.ev()
     ctx.state["opens"].clear()
@@ -433,7 +488,7 @@ def exec_split(ctx, case):
         w.__enter__()
     run_ops(w, "w" * n + end, records, errors)
     del w
-    ctx.nontrivial("split", case["tg"], limit, sl, n, end)
+    ctx.nontrivial("split", case["tg"], limit, sl, n, end, case.get("sq"))
     ctx.cell("split", case["tg"], "limit%d" % limit, "n%%limit=%s" % ("0" if n % limit == 0 else "r"))
     ctx.event("b_cases")
     if n > limit * 10 ** sl:
@@ -551,7 +606,8 @@ def analyse_parts(ctx, case, d, spec, read_scheme, expected, extra, sample_kind)
 
 # ---- (c) rotation ---------------------------------------------------------------------------------
 BASE_TS = _dt.datetime(2023, 1, 1, 10, 0, 0, tzinfo=io17.UTC)
-ROT_KIND = {".records.gz": "stream.gz", ".records": "stream", ".json": "jsonfile"}
+ROT_KIND = {".records.gz": "stream.gz", ".records": "stream", ".json": "jsonfile", ".records.zst": "stream.zst", ".records.lz4": "stream.lz4",
+            ".records.bz2": "stream.bz2"}
 
 
 def rotation_stem(basename):
@@ -763,6 +819,134 @@ def exec_rotation(ctx, case):
     shutil.rmtree(root, ignore_errors=True)
 
 
+# ---- (a2) several writers open at once ----------------------------------------------------------------------
+def exec_overlap(ctx, case):
+    from flow.record import RecordWriter
+
+    rng = random.Random(case["s"])
+    nwr = case["nw"]
+    kinds = [case["ad"]] * nwr if case["ad"] != "mixed" else rng.sample(STREAM_KINDS, nwr) + [rng.choice(["stream.zst", "stream.lz4"])]
+    d = case_dir(ctx)
+    ctx.ev()
+    paths = [os.path.join(d, "w%d%s" % (i, io17.KINDS[k]["ext"])) for i, k in enumerate(kinds)]
+    # different sub-seeds per writer: the tags differ, so a record landing in the wrong file is visible
+    per = [io17.make_records(subseed(case["s"], i), rng.randint(2, 6), "xyzgG") for i in range(len(kinds))]
+    expected = [io17.observe_all(rs) for rs in per]
+    errors = []
+    writers = []
+    try:
+        for p in paths:
+            writers.append(RecordWriter(p))
+    except Exception as e:  # noqa: BLE001
+        ctx.violation(None, "overlap: a writer cannot be created while another one is open", detail={"exception": repr(e)[:300], "kinds": kinds})
+        shutil.rmtree(d, ignore_errors=True)
+        return
+    cursors = [0] * len(kinds)
+    turn = 0
+    while any(c < len(rs) for c, rs in zip(cursors, per)):
+        live = [i for i in range(len(kinds)) if cursors[i] < len(per[i])]
+        i = live[turn % len(live)] if case["inter"] == "rr" else rng.choice(live)
+        turn += 1
+        try:
+            writers[i].write(per[i][cursors[i]])
+            if rng.random() < 0.2:
+                writers[i].flush()
+        except Exception as e:  # noqa: BLE001
+            errors.append({"writer": i, "op": "w", "exception": "%s: %s" % (type(e).__name__, str(e)[:200])})
+        cursors[i] += 1
+    order = list(range(len(kinds)))
+    if case["order"] == "rev":
+        order.reverse()
+    for j, i in enumerate(order):
+        try:
+            if (j + case["s"]) % 2:
+                writers[i].flush()
+            writers[i].close()
+        except Exception as e:  # noqa: BLE001
+            errors.append({"writer": i, "op": "c", "exception": "%s: %s" % (type(e).__name__, str(e)[:200])})
+    del writers
+    ctx.nontrivial("overlap", case["ad"], nwr, case["order"], case["inter"])
+    ctx.cell("overlap", case["ad"], "writers%d" % len(kinds), case["order"])
+    ctx.event("o_cases")
+    extra = {"kinds": kinds, "close_order": order, "interleaving": case["inter"], "op_errors": errors}
+    ok = not errors
+    if errors:
+        ctx.violation(None, "overlap: an operation raised while several writers were open", detail=extra)
+    for i, (k, p) in enumerate(zip(kinds, paths)):
+        spec = io17.KINDS[k]
+        view = io17.inspect_file(spec["fam"], spec["codec"], p)
+        problems = io17.diff_view(spec["fam"], view, expected[i])
+        ctx.event("o_files_read")
+        if problems:
+            ok = False
+            report(ctx, None, "overlap: file %d of %d (%s)" % (i + 1, len(kinds), k), problems, dict(extra, file=os.path.basename(p), size=view.size))
+    if ok:
+        ctx.event("o_held")
+    ctx.sample({"case": case, "kinds": kinds}, kind="overlap:" + case["ad"])
+    shutil.rmtree(d, ignore_errors=True)
+
+
+# ---- (a3) Avro: refused records in the middle of a history ----------------------------------------------------
+def exec_avro_refuse(ctx, case):
+    from flow.record import RecordWriter
+
+    seq, end = case["seq"], case["end"]
+    d = case_dir(ctx)
+    path = os.path.join(d, "out.avro")
+    records = io17.make_records(case["s"], len(seq), "v", shape_seq=seq)
+    obs_all = io17.observe_all(records)
+    ctx.ev()
+    try:
+        w = RecordWriter(path)
+    except Exception as e:  # noqa: BLE001
+        ctx.violation(None, "avro: the writer cannot be created", detail={"exception": repr(e)[:300]})
+        shutil.rmtree(d, ignore_errors=True)
+        return
+    if "x" in end:
+        w.__enter__()
+    accepted, refused, errors = [], [], []
+    for i, r in enumerate(records):
+        try:
+            w.write(r)  # the producer catches a refusal and carries on
+            accepted.append(i)
+        except Exception as e:  # noqa: BLE001
+            refused.append(i)
+            errors.append({"at": i, "shape": seq[i], "exception": "%s: %s" % (type(e).__name__, str(e)[:160])})
+        if case["flush"] == 1 or (case["flush"] == 2 and i % 2):
+            try:
+                w.flush()
+            except Exception as e:  # noqa: BLE001
+                errors.append({"at": i, "op": "f", "exception": "%s: %s" % (type(e).__name__, str(e)[:160])})
+    run_ops(w, end, [], errors)
+    del w
+    ctx.nontrivial("avrefuse", seq, end, case["flush"])
+    ctx.cell("avrefuse", "len%d" % len(seq), "refused%d" % len(refused))
+    ctx.event("v_cases")
+    ctx.event("v_records_refused", len(refused))
+    ctx.event("v_records_accepted", len(accepted))
+    for i in refused:
+        if seq[i] == "v":
+            ctx.violation(None, "avro: a record the format can hold was refused", detail={"sequence": seq, "index": i, "op_errors": errors})
+    ctx.event("v_unmappable_accepted", sum(1 for i in accepted if seq[i] != "v"))
+    view = io17.inspect_file("avro", None, path)
+    # conservation over the accepted records.  An unmappable record that was accepted anyway is compared by identity only
+    # (what value it turns into is C19's subject)
+    expected = [obs_all[i] for i in accepted]
+    if view.reader_obs is not None and len(view.reader_obs) == len(expected):
+        for j, i in enumerate(accepted):
+            if seq[i] != "v" and io17.ident(view.reader_obs[j]) == io17.ident(expected[j]):
+                expected[j] = view.reader_obs[j]
+    problems = io17.diff_view("avro", view, expected)
+    if problems:
+        report(ctx, None, "avro after a history with refused records (%s, ending %s)" % (seq, end), problems,
+               {"sequence": seq, "ending": end, "flush_mode": case["flush"], "accepted": accepted, "refused": refused, "op_errors": errors,
+                "file_size": view.size})
+    else:
+        ctx.event("v_held")
+    ctx.sample({"case": case, "accepted": accepted, "refused": refused}, kind="avrefuse:%d" % len(refused))
+    shutil.rmtree(d, ignore_errors=True)
+
+
 def worker_env():
     env = dict(os.environ)
     pp = env.get("PYTHONPATH", "")
@@ -943,6 +1127,10 @@ def execute(ctx, case):
         return exec_stdout(ctx, case)
     if case["k"] == "splitrel":
         return exec_split_relative(ctx, case)
+    if case["k"] == "overlap":
+        return exec_overlap(ctx, case)
+    if case["k"] == "avrefuse":
+        return exec_avro_refuse(ctx, case)
     if case["k"] == "hist":
         exec_history(ctx, case)
     elif case["k"] == "split":
@@ -970,6 +1158,11 @@ def finish(ctx):
     ctx.require(ev.get("c_cases", 0) > 0 and ev.get("c_rename_events", 0) > 0 and ev.get("c_files_read", 0) > 0,
                 "part (c): the rename monitor saw no rename or no rotated file was read")
     ctx.require(ev.get("c_sentinels_rotated", 0) > 0, "part (c): no sentinel file was rotated")
+    ctx.require(ev.get("o_cases", 0) > 0 and ev.get("o_files_read", 0) > 0, "no case with several writers open at once")
+    ctx.require(ev.get("a_histories_with_both_group_kinds", 0) > 0 and ev.get("b_cases_with_both_group_kinds", 0) > 0,
+                "no close history / split with grouped records of both member-type kinds")
+    ctx.require(ev.get("v_cases", 0) > 0 and ev.get("v_records_refused", 0) > 0 and ev.get("v_records_accepted", 0) > 0,
+                "no Avro history in which a record was refused and others accepted")
     ctx.require(ev.get("b_rel_cases", 0) > 0, "part (b): no split target with a relative name was written")
     ctx.require(ev.get("d_cases", 0) > 0 and ev.get("d_independent_reads", 0) > 0 and ev.get("d_bytes_captured", 0) > 0,
                 "part (d): no standard-output capture was read back")
